@@ -206,6 +206,23 @@ def _globals_rule(repo, rep):
         rep.check(ev >= 0 and i > ev, "R05.3", site,
                   "the global write follows the evaluation of the value",
                   construct="global-order", where=w)
+        # per name: what is written for name k is k's own (unpacked) value,
+        # i.e. what the local store put into econtext[k] -- not the whole
+        # value of a multi-name definition
+        v = b["_V"]
+        same_key = isinstance(v, ast.Subscript) and \
+            src(v.value) == "econtext" and isinstance(
+                v.slice, ast.Name) and isinstance(b["_K"], ast.Name) and \
+            v.slice.id == b["_K"].id
+        st_i = lin.index(lambda x: isinstance(x, A.Py) and x.kind == "Assign"
+                         and "econtext" in A.show(x.f.get("targets"),
+                                                  limit=6))
+        same_key = same_key and 0 <= st_i < i
+        rep.check(same_key, "R05.3", site, "each name of a global definition "
+                  "gets its own value in the render-wide context "
+                  "(rcontext[k] = econtext[k], after the unpacking store)",
+                  construct="global-per-name-value", where=w,
+                  detail="writes %s" % src(v))
     # local store into econtext always
     stores = [i for i, (it, c, p) in enumerate(lin.rows)
               if isinstance(it, A.Py) and it.kind == "Subscript"
